@@ -271,6 +271,11 @@ def train_multi_agent_on_policy(
                     next_obs, reward, termination, truncation, info = env.step(
                         clipped_action
                     )
+                    # One score column per shared id: sum the rewards of homogeneous agents
+                    shared_reward = {shared_id: 0 for shared_id in agent_ids}
+                    for agent_id, agent_reward in reward.items():
+                        shared_reward[agent.get_homo_id(agent_id)] += agent_reward
+
                     score_increment = (
                         (
                             np.sum(
@@ -282,7 +287,7 @@ def train_multi_agent_on_policy(
                             )
                         )
                         if sum_scores
-                        else np.array(list(reward.values())).transpose()
+                        else np.array(list(shared_reward.values())).transpose()
                     )
 
                     scores += score_increment
